@@ -29,6 +29,12 @@ type c04prog struct {
 	J       int  // version the adversary registers (0..Updates-1)
 	Sub     bool // the ledger channel has an open sub-channel (registered together with the parent)
 	AWatch  bool // variant: A's own honest watcher runs too (it may be the one that refutes)
+	// Late: the adversary registers version J only once A holds version J+1 fully signed (a
+	// genuinely outdated state); otherwise as soon as version J exists.
+	Late bool
+	// FromStart: schedules are explored from the channel proposal on (incl. the start of the
+	// watchers), not only from the open channel.
+	FromStart bool
 }
 
 func (p c04prog) name() string {
@@ -38,6 +44,12 @@ func (p c04prog) name() string {
 	}
 	if p.AWatch {
 		n += "/awatch"
+	}
+	if p.Late {
+		n += "/late"
+	}
+	if p.FromStart {
+		n += "/fromstart"
 	}
 	return n
 }
@@ -69,6 +81,9 @@ func c04exec(t *testing.T, ssc schedrun.Scenario, o vsched.Options) (*vsched.Sch
 		if !pr.AWatch {
 			w.NoWatch[0] = true
 		}
+		if pr.FromStart {
+			vsched.StartExploration()
+		}
 		ca, cb, err := w.OpenLedger(0, 1, 10, 10)
 		if err != nil {
 			obs.errs = append(obs.errs, "open: "+err.Error())
@@ -96,7 +111,9 @@ func c04exec(t *testing.T, ssc schedrun.Scenario, o vsched.Options) (*vsched.Sch
 			sub1 = w.P[1].Chans[len(w.P[1].Chans)-1]
 			firstParent = 1
 		}
-		vsched.StartExploration()
+		if !pr.FromStart {
+			vsched.StartExploration()
+		}
 		target := uint64(pr.J + firstParent)
 		advDone := make(chan struct{}, 1)
 		// the adversary registers A's copy of version `target` as soon as it exists; WHEN it runs
@@ -110,7 +127,12 @@ func c04exec(t *testing.T, ssc schedrun.Scenario, o vsched.Options) (*vsched.Sch
 				}
 				return nil
 			}
-			vsched.WaitCond("adversary.wait", func() bool { return find(ca.ID(), target) != nil })
+			vsched.WaitCond("adversary.wait", func() bool {
+				if pr.Late {
+					return find(ca.ID(), target+1) != nil
+				}
+				return find(ca.ID(), target) != nil
+			})
 			tx := find(ca.ID(), target)
 			var subs []channel.SignedState
 			if pr.Sub { // the oldest sub-channel state A holds
@@ -157,6 +179,10 @@ func c04exec(t *testing.T, ssc schedrun.Scenario, o vsched.Options) (*vsched.Sch
 			}
 		}
 		vsched.Recv(advDone)
+		// H relies on its watcher: it only settles once the challenge period started by the
+		// adversary's registration is over (a Settle inside the period would register H's current
+		// state itself and mask a watcher that does not refute)
+		vsched.Sleep(61 * time.Second)
 		// H settles; a Settle that fails while a challenge period is running is retried after it
 		var serr error
 		for try := 0; try < 3; try++ {
@@ -197,6 +223,9 @@ func c04check(ssc schedrun.Scenario, s *vsched.Sched, o any) []schedrun.Verdict 
 	}
 	if pr.AWatch {
 		site += "/awatch"
+	}
+	if pr.Late {
+		site += "/late"
 	}
 	var out []schedrun.Verdict
 	seen := map[string]bool{}
@@ -287,6 +316,8 @@ func c04programs(thorough bool) []c04prog {
 	}
 	out = append(out, c04prog{Updates: 1, J: 0, AWatch: true}, c04prog{Updates: 2, J: 1, AWatch: true})
 	out = append(out, c04prog{Updates: 1, J: 0, Sub: true})
+	out = append(out, c04prog{Updates: 1, J: 0, Late: true}, c04prog{Updates: 2, J: 0, Late: true}, c04prog{Updates: 2, J: 1, Late: true})
+	out = append(out, c04prog{Updates: 1, J: 0, Late: true, FromStart: true})
 	if thorough {
 		out = append(out, c04prog{Updates: 2, J: 0, Sub: true}, c04prog{Updates: 2, J: 1, Sub: true})
 	}
